@@ -336,7 +336,19 @@ class ExprGen:
 
     def rel(self, depth):
         r = self.rnd
-        return (r.choice(["lt", "leq", "geq", "gt", "eq", "neq", "leq", "geq"]), self.arith(depth), self.arith(depth))
+        pool = self.__dict__.setdefault("pool", [])
+        if pool and not self.consts_only and r.random() < 0.3:
+            # the same atom (or the same expression against a neighbouring constant / the opposite relation) again: shared and unate literals
+            op, l, rr = r.choice(pool)
+            c = r.random()
+            if c < 0.5:
+                return (op, l, rr)
+            if c < 0.8:
+                return (r.choice(["lt", "leq", "geq", "gt", "eq"]), l, rr)
+            return (r.choice(["leq", "geq", "lt", "gt"]), l, ("add", [rr, self.const()]))
+        e = (r.choice(["lt", "leq", "geq", "gt", "eq", "neq", "leq", "geq"]), self.arith(depth), self.arith(depth))
+        pool.append(e)
+        return e
 
     def boolean(self, depth):
         r = self.rnd
